@@ -66,6 +66,7 @@ func minimise(orig *Program, rp *Replay) *Replay {
 		func(c *ExecCfg) { c.PermListings = false },
 		func(c *ExecCfg) { c.PermSites = false },
 		func(c *ExecCfg) { c.SharedDeps = false },
+		func(c *ExecCfg) { c.RealReader = false },
 	} {
 		c := cfg
 		f(&c)
